@@ -1,4 +1,5 @@
 """C09 - third-party documents are read as their format defines."""
+import json
 import os
 
 from hypothesis import strategies as st
@@ -152,6 +153,35 @@ def enum_corpus(tier, seed):
     return [{"format": "corpus", "corpus": p} for p in fama.corpus_files(None if tier == "thorough" else 200)]
 
 
+@st.composite
+def unrepresentable(draw):
+    """Documents with a construct the library has no representation for: it must raise, not return a model that
+    silently lacks (or re-interprets) the construct."""
+    which = draw(st.sampled_from(["featureide-atmost1", "featureide-unknown-rule", "glencoe-unknown-term"]))
+    if which.startswith("featureide"):
+        model = draw(S.model_specs(S.FEATUREIDE, 2, 6))
+        model["ctcs"] = []
+        text, _ = EF.emit_featureide(draw, model)
+        names = build.names(model)
+        from xml.sax.saxutils import escape
+        a, b = escape(names[0]), escape(names[-1])
+        rule = (f"<rule><atmost1><var>{a}</var><var>{b}</var></atmost1></rule>" if which == "featureide-atmost1"
+                else f"<rule><nand><var>{a}</var><var>{b}</var></nand></rule>")
+        if "<constraints>" in text:
+            text = text.replace("<constraints>", "<constraints>" + rule, 1)
+        elif "<constraints/>" in text:
+            text = text.replace("<constraints/>", "<constraints>" + rule + "</constraints>", 1)
+        else:
+            text = text.replace("</struct>", "</struct><constraints>" + rule + "</constraints>", 1)
+        return {"format": "featureide", "model": model, "text": text, "labels": ["unrepresentable:" + which], "expect": "error"}
+    model = draw(S.model_specs(S.GLENCOE_3P, 2, 6))
+    model["ctcs"] = [{"name": "K", "ast": ["AND", ["T", build.names(model)[0]], ["T", build.names(model)[-1]]]}]
+    text, _ = EF.emit_glencoe(draw, model)
+    doc = json.loads(text)
+    doc["constraints"]["K"]["type"] = draw(st.sampled_from(["AtMostTerm", "NandTerm", "ForAllTerm"]))
+    return {"format": "glencoe", "model": model, "text": json.dumps(doc), "labels": ["unrepresentable:" + which], "expect": "error"}
+
+
 def gen_for(fmt, profile, emit, max_feats=10, negative=False, min_feats=1):
     @st.composite
     def cases(draw):
@@ -203,6 +233,8 @@ SUBS = [
         essential=["kept", "freedom:redundant-parentheses", "freedom:parentheses-omitted-by-precedence"]),
     Sub("afm-unrepresentable", check, gen=lambda tier: gen_for("afm", S.AFM, EF.emit_afm, negative=True, min_feats=2),
         nontrivial=nontrivial, classes=classes, n={"quick": 10, "thorough": 200}, essential=["kept"]),
+    Sub("other-unrepresentable", check, gen=lambda tier: unrepresentable(), nontrivial=nontrivial, classes=classes,
+        n={"quick": 10, "thorough": 200}),
     Sub("glencoe", check, gen=lambda tier: gen_for("glencoe", S.GLENCOE_3P, EF.emit_glencoe), nontrivial=nontrivial,
         classes=classes, n=N,
         essential=["freedom:id-differs-from-name", "freedom:n-ary-term", "freedom:note-absent", "freedom:named-group-as-GENOR"]),
